@@ -28,6 +28,9 @@ def call(interp, info, args):
         m = MODELS.get(k)
         if m is not None:
             return m(interp, args, info)
+    if keys[0].startswith("std::convert::num::<impl std::convert::From<") and keys[0].endswith(">::from") and len(args) == 1 \
+            and (isinstance(args[0], Tok) or (isinstance(args[0], int))):
+        return args[0]                 # lossless integer widening (u8 -> u32, u64 -> u128, bool -> u8 …)
     # trait methods that could not be resolved statically (generic code): dispatch on the value
     tr = info.get("trait")
     if tr:
@@ -97,6 +100,8 @@ def tok_switch(interp, t, term):
         for l in lits:
             interp.policy.int_cmp(interp, t, l, "Eq")
         return t.val + t.off
+    if t.kind == "C" and t.dom == "input-first-byte" and hasattr(interp.policy, "first_byte_decide"):
+        return interp.policy.first_byte_decide(interp, t, [int(v) for v, _ in term["targets"]])
     if t.kind == "C":  # abstract char: exact for comparisons with ASCII literals
         lits = [int(v) for v, _ in term["targets"]]
         if any(l >= 0x80 for l in lits):
@@ -429,6 +434,11 @@ def m_vec_append(interp, args, info):
 @model("std::vec::Vec::<T, A>::is_empty")
 def m_vec_is_empty(interp, args, info):
     v = interp.load(args[0])
+    if isinstance(v, Tok) and v.kind == "L" and v.dom == "default-list":
+        memo = interp.__dict__.setdefault("_default_list_empty", {})
+        if v.name not in memo:
+            memo[v.name] = interp.ctx.choose("default-list-empty", 2) == 1
+        return memo[v.name]
     if isinstance(v, Tok) and v.kind == "L":
         interp.events.append(("is_empty", v.name))
         return len(v.val) == 0
@@ -667,6 +677,8 @@ def make_iter(interp, v):
         raise Inconclusive("into_iter on reference to %r" % (tgt,), interp.where())
     if isinstance(v, ListV):
         return IterV("vec", v)
+    if isinstance(v, Tok) and v.kind == "L" and v.dom == "default-list":
+        return IterV("vec", ListV(()))
     if isinstance(v, Adt) and v.name == "std::option::Option":
         return IterV("vec", ListV(v.fields))
     raise Inconclusive("into_iter on %r" % (v,), interp.where())
@@ -794,6 +806,16 @@ def iter_next(interp, it):
                 return x, IterV("skip_while", inner, it.b, 1)
     if k == "repeat":
         return some(it.a), it
+    if k == "inspect":
+        x, inner = iter_next(interp, it.a)
+        if is_some(x):
+            interp.call_value(it.b, [mkref(x.fields[0])])
+        return x, IterV("inspect", inner, it.b)
+    if k == "peekable":
+        if it.b is not None:
+            return it.b[0], IterV("peekable", it.a, None)
+        x, inner = iter_next(interp, it.a)
+        return x, IterV("peekable", inner, None)
     if k == "zip":
         x, a = iter_next(interp, it.a)
         if not is_some(x):
@@ -1166,6 +1188,9 @@ def _elem_ptr(interp, p, i):
 
 @model("core::slice::<impl [T]>::first")
 def m_slice_first(interp, args, info):
+    v0 = interp.strip(args[0])
+    if isinstance(v0, Tok) and v0.dom == "input" and hasattr(interp.policy, "stream_first"):
+        return interp.policy.stream_first(interp, v0)
     c, path, n = _elem_ptr(interp, args[0], 0)
     return some(Ptr(c, path + (("i", 0),))) if n else NONE
 
@@ -1805,6 +1830,81 @@ def m_slice_sort(interp, args, info):
     return _sort_list(interp, args[0], lambda a, b: cmp_values(interp, a, b))
 
 
+def _list_at(interp, p):
+    c, path = interp.deref(p)
+    v = interp.read(c, path)
+    while isinstance(v, (Ptr, BoxV)):
+        c, path = interp.deref(v)
+        v = interp.read(c, path)
+    if not isinstance(v, ListV):
+        raise Inconclusive("list operation on %r" % (v,), interp.where())
+    return c, path, v
+
+
+@model("std::vec::Vec::<T, A>::dedup")
+def m_vec_dedup(interp, args, info):
+    c, path, v = _list_at(interp, args[0])
+    out = []
+    for x in v.items:
+        if out and eq_values(interp, out[-1], x):
+            continue
+        out.append(x)
+    interp.write(c, path, ListV(out))
+    return UNIT
+
+
+@model("std::vec::Vec::<T, A>::dedup_by_key")
+def m_vec_dedup_by_key(interp, args, info):
+    c, path, v = _list_at(interp, args[0])
+    out, keys = [], []
+    for x in v.items:
+        k = interp.call_value(args[1], [mkref(x)])
+        if out and eq_values(interp, keys[-1], k):
+            continue
+        out.append(x)
+        keys.append(k)
+    interp.write(c, path, ListV(out))
+    return UNIT
+
+
+def _binary_search(interp, items, cmpf):
+    """documented behaviour of slice::binary_search*: on a slice sorted consistently with cmpf, Ok(index of a match) — any
+    match when there are several — else Err(insertion point). The slice is required to be sorted; if it is not, the
+    result is unspecified, which this model reports as inconclusive."""
+    res = [cmpf(x) for x in items]           # ordering of element vs target: -1 / 0 / 1
+    if any(res[i] > res[i + 1] for i in range(len(res) - 1)):
+        raise Inconclusive("binary_search on a slice that is not sorted for the target", interp.where())
+    hits = [i for i, r in enumerate(res) if r == 0]
+    if hits:
+        i = hits[0] if len(hits) == 1 else hits[interp.ctx.choose("binary_search-match", len(hits))]
+        return ok(i)
+    return err(sum(1 for r in res if r < 0))
+
+
+@model("core::slice::<impl [T]>::binary_search", "std::slice::<impl [T]>::binary_search")
+def m_binary_search(interp, args, info):
+    v = interp.strip(args[0])
+    if not isinstance(v, ListV):
+        raise Inconclusive("binary_search on %r" % (v,), interp.where())
+    return _binary_search(interp, v.items, lambda x: cmp_values(interp, x, args[1]))
+
+
+@model("core::slice::<impl [T]>::binary_search_by", "std::slice::<impl [T]>::binary_search_by")
+def m_binary_search_by(interp, args, info):
+    v = interp.strip(args[0])
+    if not isinstance(v, ListV):
+        raise Inconclusive("binary_search_by on %r" % (v,), interp.where())
+    return _binary_search(interp, v.items, lambda x: ordering_to_int(interp.call_value(args[1], [mkref(x)])))
+
+
+@model("core::slice::<impl [T]>::binary_search_by_key", "std::slice::<impl [T]>::binary_search_by_key")
+def m_binary_search_by_key(interp, args, info):
+    v = interp.strip(args[0])
+    if not isinstance(v, ListV):
+        raise Inconclusive("binary_search_by_key on %r" % (v,), interp.where())
+    return _binary_search(interp, v.items, lambda x: cmp_values(interp, interp.call_value(args[2], [mkref(x)]), args[1]))
+
+
 @model("std::slice::<impl [T]>::sort_by", "core::slice::<impl [T]>::sort_unstable_by", "alloc::slice::<impl [T]>::sort_by")
 def m_slice_sort_by(interp, args, info):
     return _sort_list(interp, args[0], lambda a, b: ordering_to_int(interp.call_value(args[1], [mkref(a), mkref(b)])))
@@ -1825,6 +1925,9 @@ def m_str_starts_with(interp, args, info):
         needle = chr(pat) if isinstance(pat, int) else pat.s
         which = info["def"].rsplit("::", 1)[1]
         return {"starts_with": s_.s.startswith, "ends_with": s_.s.endswith, "contains": s_.s.__contains__}[which](needle)
+    if isinstance(s_, Tok) and s_.dom == "input" and hasattr(interp.policy, "stream_starts_with") \
+            and info["def"].rsplit("::", 1)[1] == "starts_with":
+        return interp.policy.stream_starts_with(interp, s_, pat)
     if isinstance(s_, Tok) and s_.kind == "T":
         # opaque text (e.g. an identifier): whether it starts with / contains a given pattern is not determined by the
         # abstraction — both outcomes are explored
@@ -2274,3 +2377,471 @@ def m_range_inclusive_new(interp, args, info):
 @model("std::array::<impl std::ops::Index<I> for [T; N]>::index", "core::array::<impl std::ops::Index<I> for [T; N]>::index")
 def m_array_index(interp, args, info):
     return m_vec_index(interp, args, info)
+
+
+# ----------------------------------------------------------------------------- Result / Option: the rest of the small API
+
+def _model_missing(*keys):
+    """register only the names that have no model yet"""
+    def deco(f):
+        for k in keys:
+            MODELS.setdefault(k, f)
+        return f
+    return deco
+
+
+@_model_missing("std::result::Result::<T, E>::is_ok")
+def m_res_is_ok(interp, args, info):
+    return _is_ok(interp.strip(args[0]))
+
+
+@_model_missing("std::result::Result::<T, E>::is_err")
+def m_res_is_err(interp, args, info):
+    return not _is_ok(interp.strip(args[0]))
+
+
+@_model_missing("std::result::Result::<T, E>::is_err_and")
+def m_res_is_err_and(interp, args, info):
+    return bool((not _is_ok(args[0])) and interp.call_value(args[1], [args[0].fields[0]]))
+
+
+@_model_missing("std::result::Result::<T, E>::err")
+def m_res_err(interp, args, info):
+    return NONE if _is_ok(args[0]) else some(args[0].fields[0])
+
+
+@_model_missing("std::result::Result::<T, E>::unwrap", "std::result::Result::<T, E>::expect")
+def m_res_unwrap(interp, args, info):
+    if _is_ok(args[0]):
+        return args[0].fields[0]
+    raise Panic("unwrap_err_value", interp.where())
+
+
+@_model_missing("std::result::Result::<T, E>::unwrap_err", "std::result::Result::<T, E>::expect_err")
+def m_res_unwrap_err(interp, args, info):
+    if not _is_ok(args[0]):
+        return args[0].fields[0]
+    raise Panic("unwrap_err_on_ok", interp.where())
+
+
+@_model_missing("std::result::Result::<T, E>::and_then")
+def m_res_and_then(interp, args, info):
+    if _is_ok(args[0]):
+        return interp.call_value(args[1], [args[0].fields[0]])
+    return args[0]
+
+
+@_model_missing("std::result::Result::<T, E>::or_else")
+def m_res_or_else(interp, args, info):
+    if _is_ok(args[0]):
+        return args[0]
+    return interp.call_value(args[1], [args[0].fields[0]])
+
+
+@_model_missing("std::result::Result::<T, E>::and")
+def m_res_and(interp, args, info):
+    return args[1] if _is_ok(args[0]) else args[0]
+
+
+@_model_missing("std::result::Result::<T, E>::or")
+def m_res_or(interp, args, info):
+    return args[0] if _is_ok(args[0]) else args[1]
+
+
+@_model_missing("std::result::Result::<T, E>::as_ref", "std::result::Result::<T, E>::as_mut")
+def m_res_as_ref(interp, args, info):
+    c, path = interp.deref(args[0])
+    v = interp.read(c, path)
+    if not (isinstance(v, Adt) and v.name == "std::result::Result"):
+        raise Inconclusive("Result::as_ref on %r" % (v,), interp.where())
+    return Adt(v.name, v.variant, (Ptr(c, tuple(path) + (("v", v.variant), ("f", 0))),)) if False else \
+        Adt(v.name, v.variant, (mkref(v.fields[0]),))
+
+
+@_model_missing("std::result::Result::<T, E>::inspect", "std::option::Option::<T>::inspect")
+def m_inspect(interp, args, info):
+    v = args[0]
+    if (isinstance(v, Adt) and v.name == "std::result::Result" and v.variant == 0) or is_some(v):
+        interp.call_value(args[1], [mkref(v.fields[0])])
+    return v
+
+
+@_model_missing("std::result::Result::<T, E>::inspect_err")
+def m_inspect_err(interp, args, info):
+    v = args[0]
+    if not _is_ok(v):
+        interp.call_value(args[1], [mkref(v.fields[0])])
+    return v
+
+
+@_model_missing("std::option::Option::<T>::ok_or_else")
+def m_opt_ok_or_else(interp, args, info):
+    return ok(args[0].fields[0]) if is_some(args[0]) else err(interp.call_value(args[1], []))
+
+
+@_model_missing("std::option::Option::<T>::map_or_else")
+def m_opt_map_or_else(interp, args, info):
+    if is_some(args[0]):
+        return interp.call_value(args[2], [args[0].fields[0]])
+    return interp.call_value(args[1], [])
+
+
+@_model_missing("std::option::Option::<std::option::Option<T>>::flatten")
+def m_opt_flatten(interp, args, info):
+    return args[0].fields[0] if is_some(args[0]) else NONE
+
+
+@_model_missing("std::option::Option::<T>::insert", "std::option::Option::<T>::replace")
+def m_opt_insert(interp, args, info):
+    c, path = interp.deref(args[0])
+    old = interp.read(c, path)
+    interp.write(c, path, some(args[1]))
+    if info["def"].endswith("::replace"):
+        return old
+    return Ptr(c, tuple(path) + (("f", 0),)) if False else mkref(args[1])
+
+
+@_model_missing("std::option::Option::<std::result::Result<T, E>>::transpose")
+def m_opt_transpose(interp, args, info):
+    v = args[0]
+    if not is_some(v):
+        return ok(NONE)
+    r = v.fields[0]
+    return ok(some(r.fields[0])) if _is_ok(r) else r
+
+
+@_model_missing("std::result::Result::<std::option::Option<T>, E>::transpose")
+def m_res_transpose(interp, args, info):
+    r = args[0]
+    if not _is_ok(r):
+        return some(r)
+    o = r.fields[0]
+    return some(ok(o.fields[0])) if is_some(o) else NONE
+
+
+# ----------------------------------------------------------------------------- Peekable, retain
+
+@_model_missing("std::iter::Iterator::peekable")
+def m_iter_peekable(interp, args, info):
+    return IterV("peekable", make_iter(interp, args[0]), None)
+
+
+def _peek(interp, p):
+    c, path = interp.deref(p)
+    it = interp.read(c, path)
+    if not (isinstance(it, IterV) and it.kind == "peekable"):
+        raise Inconclusive("peek on %r" % (it,), interp.where())
+    if it.b is None:
+        x, inner = iter_next(interp, it.a)
+        it = IterV("peekable", inner, (x,))
+        interp.write(c, path, it)
+    return c, path, it
+
+
+@_model_missing("std::iter::Peekable::<I>::peek", "std::iter::Peekable::<I>::peek_mut")
+def m_peekable_peek(interp, args, info):
+    c, path, it = _peek(interp, args[0])
+    x = it.b[0]
+    return some(mkref(x.fields[0])) if is_some(x) else NONE
+
+
+@_model_missing("std::iter::Peekable::<I>::next_if")
+def m_peekable_next_if(interp, args, info):
+    c, path, it = _peek(interp, args[0])
+    x = it.b[0]
+    if is_some(x):
+        keep = interp.call_value(args[1], [mkref(x.fields[0])])
+        if not isinstance(keep, bool):
+            raise Inconclusive("next_if predicate returned %r" % (keep,), interp.where())
+        if keep:
+            interp.write(c, path, IterV("peekable", it.a, None))
+            return x
+    return NONE
+
+
+@_model_missing("std::iter::Peekable::<I>::next_if_eq")
+def m_peekable_next_if_eq(interp, args, info):
+    c, path, it = _peek(interp, args[0])
+    x = it.b[0]
+    if is_some(x) and eq_values(interp, x.fields[0], args[1]):
+        interp.write(c, path, IterV("peekable", it.a, None))
+        return x
+    return NONE
+
+
+@_model_missing("std::vec::Vec::<T, A>::retain", "std::vec::Vec::<T, A>::retain_mut")
+def m_vec_retain(interp, args, info):
+    c, path, v = _list_at(interp, args[0])
+    out = []
+    for x in v.items:
+        keep = interp.call_value(args[1], [mkref(x)])
+        if not isinstance(keep, bool):
+            raise Inconclusive("retain predicate returned %r" % (keep,), interp.where())
+        if keep:
+            out.append(x)
+    interp.write(c, path, ListV(out))
+    return UNIT
+
+
+# ----------------------------------------------------------------------------- more iterator consumers and Vec editing
+
+def _range_of(interp, i, n):
+    if not (isinstance(i, Adt) and i.name.startswith("std::ops::Range")):
+        raise Inconclusive("range argument %r" % (i,), interp.where())
+    f = i.fields
+    lo, hi = {"std::ops::RangeTo": lambda: (0, f[0]), "std::ops::RangeFrom": lambda: (f[0], n),
+              "std::ops::Range": lambda: (f[0], f[1]), "std::ops::RangeFull": lambda: (0, n),
+              "std::ops::RangeToInclusive": lambda: (0, f[0] + 1 if isinstance(f[0], int) else f[0]),
+              "std::ops::RangeInclusive": lambda: (f[0], f[1] + 1 if isinstance(f[1], int) else f[1])}.get(i.name, lambda: (None, None))()
+    if not (isinstance(lo, int) and isinstance(hi, int)) or isinstance(lo, bool) or isinstance(hi, bool):
+        raise Inconclusive("range with %r" % (i,), interp.where())
+    if lo > hi or hi > n:
+        raise Panic("index", interp.where(), "range %d..%d out of %d" % (lo, hi, n))
+    return lo, hi
+
+
+@_model_missing("std::iter::Iterator::unzip")
+def m_iter_unzip(interp, args, info):
+    xs = drain(interp, make_iter(interp, args[0]))
+    for x in xs:
+        if not (isinstance(x, tuple) and len(x) == 2):
+            raise Inconclusive("unzip of %r" % (x,), interp.where())
+    return (ListV([x[0] for x in xs]), ListV([x[1] for x in xs]))
+
+
+@_model_missing("std::iter::Iterator::partition")
+def m_iter_partition(interp, args, info):
+    yes, no = [], []
+    for x in drain(interp, make_iter(interp, args[0])):
+        k = interp.call_value(args[1], [mkref(x)])
+        if not isinstance(k, bool):
+            raise Inconclusive("partition predicate returned %r" % (k,), interp.where())
+        (yes if k else no).append(x)
+    return (ListV(yes), ListV(no))
+
+
+@_model_missing("std::iter::Iterator::inspect")
+def m_iter_inspect(interp, args, info):
+    return IterV("inspect", make_iter(interp, args[0]), args[1])
+
+
+@_model_missing("std::iter::Iterator::scan")
+def m_iter_scan(interp, args, info):
+    state = Cell(args[1])
+    f = args[2]
+    out = []
+    it = make_iter(interp, args[0])
+    while True:
+        x, it = iter_next(interp, it)
+        if not is_some(x):
+            break
+        y = interp.call_value(f, [Ptr(state), x.fields[0]])
+        if not is_some(y):
+            break
+        out.append(y.fields[0])
+    return IterV("vec", ListV(out))
+
+
+@_model_missing("std::iter::Iterator::step_by")
+def m_iter_step_by(interp, args, info):
+    n = args[1]
+    if not isinstance(n, int) or isinstance(n, bool) or n <= 0:
+        raise Inconclusive("step_by(%r)" % (n,), interp.where())
+    xs = drain(interp, make_iter(interp, args[0]))
+    return IterV("vec", ListV(xs[::n]))
+
+
+@_model_missing("std::iter::Iterator::eq", "std::iter::Iterator::ne")
+def m_iter_eq(interp, args, info):
+    a = drain(interp, make_iter(interp, args[0]))
+    b = drain(interp, make_iter(interp, args[1]))
+    r = len(a) == len(b) and all(eq_values(interp, x, y) for x, y in zip(a, b))
+    return r if info["def"].endswith("::eq") else not r
+
+
+@_model_missing("std::iter::Iterator::cmp")
+def m_iter_cmp(interp, args, info):
+    a = drain(interp, make_iter(interp, args[0]))
+    b = drain(interp, make_iter(interp, args[1]))
+    return ordering(_lex(interp, a, b))
+
+
+@_model_missing("std::iter::Iterator::lt", "std::iter::Iterator::le", "std::iter::Iterator::gt", "std::iter::Iterator::ge")
+def m_iter_lt(interp, args, info):
+    a = drain(interp, make_iter(interp, args[0]))
+    b = drain(interp, make_iter(interp, args[1]))
+    c = _lex(interp, a, b)
+    return {"lt": c < 0, "le": c <= 0, "gt": c > 0, "ge": c >= 0}[info["def"].rsplit("::", 1)[1]]
+
+
+@_model_missing("std::iter::Iterator::is_sorted", "core::slice::<impl [T]>::is_sorted")
+def m_is_sorted(interp, args, info):
+    xs = drain(interp, make_iter(interp, args[0]))
+    return all(cmp_values(interp, xs[i], xs[i + 1]) <= 0 for i in range(len(xs) - 1))
+
+
+@_model_missing("std::iter::Iterator::is_sorted_by", "core::slice::<impl [T]>::is_sorted_by")
+def m_is_sorted_by(interp, args, info):
+    xs = drain(interp, make_iter(interp, args[0]))
+    for i in range(len(xs) - 1):
+        r = interp.call_value(args[1], [mkref(xs[i]), mkref(xs[i + 1])])
+        if not isinstance(r, bool):
+            raise Inconclusive("is_sorted_by closure returned %r" % (r,), interp.where())
+        if not r:
+            return False
+    return True
+
+
+@_model_missing("std::iter::Iterator::is_sorted_by_key", "core::slice::<impl [T]>::is_sorted_by_key")
+def m_is_sorted_by_key(interp, args, info):
+    xs = [interp.call_value(args[1], [x]) for x in drain(interp, make_iter(interp, args[0]))]
+    return all(cmp_values(interp, xs[i], xs[i + 1]) <= 0 for i in range(len(xs) - 1))
+
+
+@_model_missing("std::vec::Vec::<T, A>::truncate")
+def m_vec_truncate(interp, args, info):
+    c, path, v = _list_at(interp, args[0])
+    n = args[1]
+    if not isinstance(n, int) or isinstance(n, bool):
+        raise Inconclusive("truncate(%r)" % (n,), interp.where())
+    interp.write(c, path, ListV(tuple(v.items)[:n]))
+    return UNIT
+
+
+@_model_missing("std::vec::Vec::<T, A>::split_off")
+def m_vec_split_off(interp, args, info):
+    c, path, v = _list_at(interp, args[0])
+    n = args[1]
+    if not isinstance(n, int) or isinstance(n, bool):
+        raise Inconclusive("split_off(%r)" % (n,), interp.where())
+    if n > len(v.items):
+        raise Panic("index", interp.where(), "split_off at %d of %d" % (n, len(v.items)))
+    interp.write(c, path, ListV(tuple(v.items)[:n]))
+    return ListV(tuple(v.items)[n:])
+
+
+@_model_missing("std::vec::Vec::<T, A>::drain")
+def m_vec_drain(interp, args, info):
+    c, path, v = _list_at(interp, args[0])
+    lo, hi = _range_of(interp, args[1], len(v.items))
+    items = tuple(v.items)
+    interp.write(c, path, ListV(items[:lo] + items[hi:]))
+    return IterV("vec", ListV(items[lo:hi]))
+
+
+@_model_missing("std::vec::Vec::<T, A>::splice")
+def m_vec_splice(interp, args, info):
+    # the removed elements are returned as an iterator; the replacement is inserted when the Splice is dropped, which
+    # in the statement-level uses this model supports (`v.splice(r, it);`) is at once
+    c, path, v = _list_at(interp, args[0])
+    lo, hi = _range_of(interp, args[1], len(v.items))
+    new = drain(interp, make_iter(interp, args[2]))
+    items = tuple(v.items)
+    interp.write(c, path, ListV(items[:lo] + tuple(new) + items[hi:]))
+    return IterV("vec", ListV(items[lo:hi]))
+
+
+@_model_missing("core::slice::<impl [T]>::swap")
+def m_slice_swap(interp, args, info):
+    c, path, v = _list_at(interp, args[0])
+    i, j = args[1], args[2]
+    if not all(isinstance(x, int) and not isinstance(x, bool) for x in (i, j)):
+        raise Inconclusive("swap(%r, %r)" % (i, j), interp.where())
+    n = len(v.items)
+    if not (0 <= i < n and 0 <= j < n):
+        raise Panic("index", interp.where(), "swap index out of %d" % n)
+    items = list(v.items)
+    items[i], items[j] = items[j], items[i]
+    interp.write(c, path, ListV(items))
+    return UNIT
+
+
+@_model_missing("std::vec::Vec::<T, A>::resize")
+def m_vec_resize(interp, args, info):
+    c, path, v = _list_at(interp, args[0])
+    n = args[1]
+    if not isinstance(n, int) or isinstance(n, bool) or n > 4096:
+        raise Inconclusive("resize(%r)" % (n,), interp.where())
+    items = list(v.items)[:n]
+    while len(items) < n:
+        items.append(clone_value(interp, args[2]))
+    interp.write(c, path, ListV(items))
+    return UNIT
+
+
+# ----------------------------------------------------------------------------- fmt::Write on a type of the crate; Hasher::write*
+
+@_model_missing("std::fmt::Write::write_fmt")
+def m_write_fmt_custom(interp, args, info):
+    """`write!(w, …)` on a crate type implementing fmt::Write: the arguments are formatted piece by piece (as the default
+    method does through core::fmt::write) and every piece is handed to the type's own write_str"""
+    w = interp.strip(interp.load(args[0])) if isinstance(args[0], Ptr) else args[0]
+    fa = args[1]
+    if not isinstance(fa, FmtArgs):
+        raise Inconclusive("write_fmt with %r" % (fa,), interp.where())
+    if isinstance(w, Formatter):
+        return m_write_fmt(interp, args, info)
+    if not (isinstance(w, Adt) and _adt_is_local(interp, w)):
+        raise Inconclusive("fmt::Write::write_fmt on %r" % (w,), interp.where())
+    k = interp.prog.impl_method("std::fmt::Write", w.name, "write_str")
+    if not k:
+        raise Inconclusive("no fmt::Write::write_str for %s" % w.name, interp.where())
+    sink = Formatter()
+    sp = Ptr(Cell(sink))
+    m_write_fmt(interp, [sp, fa], info)
+    for kind, x in sink.out:
+        if kind == "lit":
+            piece = StrV(x)
+        elif isinstance(x, Tok) and x.kind == "I":
+            piece = Tok("T", "text(%s)" % x.name, str(x.val + x.off), dom="numtext", extra={"of": x})   # its decimal text
+        else:
+            piece = x
+        r = interp.call_key(k, [args[0], piece])
+        if not (isinstance(r, Adt) and r.name == "std::result::Result" and r.variant == 0):
+            return r
+    return ok(UNIT)
+
+
+@_model_missing("std::hash::Hasher::write", "std::hash::Hasher::write_u8", "std::hash::Hasher::write_u16", "std::hash::Hasher::write_u32",
+                "std::hash::Hasher::write_u64", "std::hash::Hasher::write_usize", "std::hash::Hasher::write_str",
+                "std::hash::Hasher::write_length_prefix", "std::hash::Hasher::write_i64", "std::hash::Hasher::write_u128")
+def m_hasher_write(interp, args, info):
+    _feed_hash(interp, args[1])
+    return UNIT
+
+
+# ----------------------------------------------------------------------------- char helpers on concrete values
+
+def _need_int(interp, v, what):
+    if isinstance(v, bool) or not isinstance(v, int):
+        raise Inconclusive("%s on %r" % (what, v), interp.where())
+    return v
+
+
+@_model_missing("std::char::methods::<impl char>::from_digit", "core::char::methods::<impl char>::from_digit", "std::char::from_digit")
+def m_char_from_digit(interp, args, info):
+    n, radix = _need_int(interp, args[0], "from_digit"), _need_int(interp, args[1], "from_digit radix")
+    if not 2 <= radix <= 36:
+        raise Panic("from_digit_radix", interp.where())
+    if n >= radix:
+        return NONE
+    return some(ord("0123456789abcdefghijklmnopqrstuvwxyz"[n]))
+
+
+@_model_missing("std::char::methods::<impl char>::to_digit", "core::char::methods::<impl char>::to_digit")
+def m_char_to_digit(interp, args, info):
+    c, radix = _need_int(interp, args[0], "to_digit"), _need_int(interp, args[1], "to_digit radix")
+    ch = chr(c).lower()
+    d = "0123456789abcdefghijklmnopqrstuvwxyz".find(ch) if len(ch) == 1 else -1
+    return some(d) if 0 <= d < radix else NONE
+
+
+@_model_missing("std::char::methods::<impl char>::from_u32", "core::char::methods::<impl char>::from_u32", "std::char::from_u32")
+def m_char_from_u32(interp, args, info):
+    n = _need_int(interp, args[0], "from_u32")
+    return some(n) if (n < 0xD800 or 0xE000 <= n < 0x110000) else NONE
+
+
+@_model_missing("std::char::methods::<impl char>::len_utf8", "core::char::methods::<impl char>::len_utf8")
+def m_char_len_utf8(interp, args, info):
+    return len(chr(_need_int(interp, args[0], "len_utf8")).encode("utf-8"))
